@@ -30,6 +30,22 @@ def run(chk, tier, seed):
         for act in ("Push", "Pop", "Clear", "Query"):
             if res.coverage and res.coverage.get(act, (1, 1))[0] == 0:
                 raise ToolError(f"vacuity: action {act} never taken in MCErrQueue Cap={cap}")
+    # 1b. unbounded: TLAPS proves the type/bound invariant of ErrQueue for EVERY capacity and error set
+    import subprocess, re, shutil, time
+    pw = workdir("C12-tlaps")
+    shutil.copy(os.path.join(SPEC, "proofs", "ErrQueueProof.tla"), pw)
+    shutil.copy(os.path.join(SPEC, "ErrQueue.tla"), pw)
+    t0 = time.time()
+    try:
+        pr = subprocess.run(["tlapm", "--threads", "6", "ErrQueueProof.tla"], cwd=pw, stdout=subprocess.PIPE, stderr=subprocess.STDOUT, text=True, timeout=600)
+        m = re.search(r"All (\d+) obligations proved", pr.stdout)
+        if m:
+            chk.cov["engines"]["TLAPS ErrQueueProof"] = {"obligations": int(m.group(1)), "discharged": int(m.group(1)), "wall_s": round(time.time() - t0, 1),
+                                                         "what": "Spec => [](queue in Seq(Errs + {Overflow}) /\\ Len(queue) <= Cap) for every Cap in Nat"}
+        else:
+            raise ToolError("tlapm did not prove ErrQueueProof: " + pr.stdout[-600:])
+    except subprocess.TimeoutExpired:
+        raise ToolError("tlapm timed out")
     # 2. spec -> impl: every (state, op) edge of the bounded model executed on the real queues
     edges = []
     for cap in caps:
@@ -89,7 +105,8 @@ def run(chk, tier, seed):
     chk.cov["rule"] = ("edges: all reachable (queue, op, arg) triples of MCErrQueue for Cap in %s with 3 error values and a bounded number of accepted pushes, "
                        "each executed on ArrayVec<Error,Cap> / Vec<Error>; non-trivial = pushes into a full queue and pops of a non-empty queue; "
                        "traces: seeded random histories of %d calls per capacity") % (caps, ops)
-    chk.assumptions += ["ArrayVec<Error,N> is instantiated for N in {1,2,3,4,5,8,16,32} only",
+    chk.assumptions += ["the TLAPS proof is about the specification only (all capacities); the code is bound to it by replay and trace validation",
+                        "ArrayVec<Error,N> is instantiated for N in {1,2,3,4,5,8,16,32} only",
                         "the model bounds the number of accepted pushes (state constraint), so exhaustive edges cover queues up to Cap+1 pushes"]
 
 
